@@ -549,7 +549,10 @@ def run_model(case, real: Real, driver, fix=(1, 1)):
                                    f'{tail["online"]}', where='online flag')
             # WHICH values the master reports, per port, over the whole history (not when: a port removed or disabled
             # within one tick of a queued value reports that value later, or never if it stays away)
-            for k in set(real_cum) | set(model_cum):
+            # Polling: the property speaks about the series only "with listening or pushed events"; a poll pass is not
+            # atomic either (handle_enable's value fetch suspends it while other answers arrive), so between two polls
+            # the master may report a stale value once before converging. Only the values at the checks are compared.
+            for k in (set(real_cum) | set(model_cum)) if mode == 'listen' else ():
                 rc, mc = real_cum.get(k, []), model_cum.get(k, [])
                 live = k in mports and mports[k]['en']
                 if k in unstable:
